@@ -17,6 +17,7 @@ import (
 	gotime "time"
 
 	"github.com/ollama/ollama/api"
+	"github.com/ollama/ollama/fs/ggml"
 	"github.com/ollama/ollama/zzverif/evid"
 	"github.com/ollama/ollama/zzverif/mcos"
 	"github.com/ollama/ollama/zzverif/mcrt"
@@ -28,14 +29,29 @@ type z4Op struct {
 	Src    string `json:"src,omitempty"`
 	GGUF   int    `json:"gguf,omitempty"`
 	System string `json:"system,omitempty"`
+	// License and Template: further layers of a create; a license with the text of a system prompt
+	// shares one blob under two media types, a template overrides the one create detects in the file
+	License  string `json:"license,omitempty"`
+	Template string `json:"template,omitempty"`
+}
+
+func (o z4Op) extras() string {
+	s := ""
+	if o.License != "" {
+		s += fmt.Sprintf(",license=%q", o.License)
+	}
+	if o.Template != "" {
+		s += fmt.Sprintf(",template=%q", o.Template)
+	}
+	return s
 }
 
 func (o z4Op) String() string {
 	switch o.Kind {
 	case "create":
-		return fmt.Sprintf("create(%s,G%d,sys=%q)", o.Name, o.GGUF, o.System)
+		return fmt.Sprintf("create(%s,G%d,sys=%q%s)", o.Name, o.GGUF, o.System, o.extras())
 	case "from":
-		return fmt.Sprintf("create(%s from %s,sys=%q)", o.Name, o.Src, o.System)
+		return fmt.Sprintf("create(%s from %s,sys=%q%s)", o.Name, o.Src, o.System, o.extras())
 	case "copy":
 		return fmt.Sprintf("copy(%s->%s)", o.Src, o.Name)
 	case "delete":
@@ -64,8 +80,22 @@ func z4Alphabet(thorough bool) []z4Op {
 		l = append(l, z4Op{Kind: "delete", Name: n})
 	}
 	l = append(l, z4Op{Kind: "pull"}, z4Op{Kind: "restart"})
+	// layers shared in less obvious ways: the same bytes as system prompt of one model and license of another;
+	// a template detected from the model file (G3 carries a chat template create recognises) kept by one model
+	// and overridden in another
+	l = append(l,
+		z4Op{Kind: "create", Name: "b", GGUF: 1, License: "S1"},
+		z4Op{Kind: "create", Name: "a", GGUF: 3},
+		z4Op{Kind: "create", Name: "b", GGUF: 3, Template: z4Template},
+		z4Op{Kind: "from", Name: "b", Src: "a", Template: z4Template})
 	return l
 }
+
+const z4Template = "{{ .Prompt }} T"
+
+// z4ChatML is the chatml entry of template/index.json: create recognises it in tokenizer.chat_template
+// and adds the matching template and parameter layers by itself.
+const z4ChatML = "{% if messages[0]['role'] == 'system' %}{% set system_message = messages[0]['content'] %}{% endif %}{% if system_message is defined %}{{ system_message }}{% endif %}{% for message in messages %}{% set content = message['content'] %}{% if message['role'] == 'user' %}{{ '<|im_start|>user\\n' + content + '<|im_end|>\\n<|im_start|>assistant\\n' }}{% elif message['role'] == 'assistant' %}{{ content + '<|im_end|>' + '\\n' }}{% endif %}{% endfor %}"
 
 func z4GGUF(w *z12World, k int) string {
 	data := append([]byte{}, ztGGUFBlob()...)
@@ -73,12 +103,22 @@ func z4GGUF(w *z12World, k int) string {
 		// a second, different model file: same structure, one tensor byte changed
 		data[len(data)-1] ^= 0xff
 	}
+	if k == 3 {
+		data = ztGGUFWith(ggml.KV{"tokenizer.chat_template": z4ChatML})
+	}
 	d := fmt.Sprintf("sha256:%x", sha256.Sum256(data))
 	if _, err := gos.Stat(w.blobFile(d)); err != nil {
 		gos.MkdirAll(filepath.Join(w.models, "blobs"), 0o755)
 		gos.WriteFile(w.blobFile(d), data, 0o644)
 	}
 	return d
+}
+
+func z4License(o z4Op) any {
+	if o.License == "" {
+		return nil
+	}
+	return o.License
 }
 
 func z4Full(name string) string {
@@ -100,11 +140,11 @@ func (w *z12World) z4Apply(o z4Op) (bool, string) {
 	switch o.Kind {
 	case "create":
 		d := z4GGUF(w, o.GGUF)
-		code, body := ztCall(w.h, "POST", "/api/create", api.CreateRequest{Model: o.Name, Files: map[string]string{"m.gguf": d}, System: o.System, Stream: &stream})
+		code, body := ztCall(w.h, "POST", "/api/create", api.CreateRequest{Model: o.Name, Files: map[string]string{"m.gguf": d}, System: o.System, Template: o.Template, License: z4License(o), Stream: &stream})
 		mcrt.WaitIdle(false)
 		return code == 200, body
 	case "from":
-		code, body := ztCall(w.h, "POST", "/api/create", api.CreateRequest{Model: o.Name, From: o.Src, System: o.System, Stream: &stream})
+		code, body := ztCall(w.h, "POST", "/api/create", api.CreateRequest{Model: o.Name, From: o.Src, System: o.System, Template: o.Template, License: z4License(o), Stream: &stream})
 		mcrt.WaitIdle(false)
 		return code == 200, body
 	case "copy":
@@ -130,6 +170,7 @@ type z4Result struct {
 	Fingerprint string
 	Failures    []string
 	Listed      int
+	AutoTmpl    int // creates from the file with a recognised chat template that produced a template layer by themselves
 }
 
 // z4Run replays history from an empty store and checks the invariants after every operation.
@@ -147,6 +188,13 @@ func z4Run(history []z4Op) z4Result {
 			_ = detail
 			after := w.snapshot()
 			where := fmt.Sprintf("after %v", history[:i+1])
+			if ok && o.Kind == "create" && o.GGUF == 3 && o.Template == "" {
+				for name, raw := range after.Manifests {
+					if strings.EqualFold(name, z4Full(o.Name)) && strings.Contains(raw, "application/vnd.ollama.image.template") {
+						out.AutoTmpl++
+					}
+				}
+			}
 			// I2: models not named by the operation keep their manifest bytes
 			target := z4Full(o.Name)
 			if o.Kind == "pull" {
@@ -367,6 +415,7 @@ func ZZVerifC04() {
 			res := z4Run(ops)
 			sub.Eval()
 			sub.Add("transitions", 1)
+			sub.Add("creates_with_autodetected_template", int64(res.AutoTmpl))
 			sub.Extra("fp:"+item, res.Fingerprint)
 			if res.Listed >= 2 {
 				sub.Distinct("nontrivial", res.Fingerprint)
@@ -408,7 +457,7 @@ func ZZVerifC04() {
 		frontier = next
 	}
 	r.Add("traces_validated_against_impl", r.Count("evaluations"))
-	r.Rule(fmt.Sprintf("breadth-first search over all sequences of up to %d operations from an alphabet of %d (create from two different model files with/without a system prompt, create from another model, copy, delete over names a, A, b, ns/a, NS/a, a:t2 - case variants of the same part under different parents included -, pull from the fake registry, restart with startup prune) executed through the real gin router and handlers; a state is the full content of the models directory (manifest bytes and blob set), successors of equal states are not re-explored; non-trivial = states with at least two listed models", depth, len(alphabet)))
+	r.Rule(fmt.Sprintf("breadth-first search over all sequences of up to %d operations from an alphabet of %d (create from two different model files with/without a system prompt, with a license that has the bytes of another model's system prompt, from a file whose chat template create recognises with/without a template override, create from another model, copy, delete over names a, A, b, ns/a, NS/a, a:t2 - case variants of the same part under different parents included -, pull from the fake registry, restart with startup prune) executed through the real gin router and handlers; a state is the full content of the models directory (manifest bytes and blob set), successors of equal states are not re-explored; non-trivial = states with at least two listed models", depth, len(alphabet)))
 	r.Extra("bounds", map[string]any{"depth_completed": completed, "depth_target": depth, "alphabet": len(alphabet)})
 	r.Assume("operations are sequential (concurrency between handlers is C15's subject)", "map iteration order inside the handlers is fixed to sorted order by the instrumenter", "the restart operation mirrors Serve's startup sequence")
 	r.Finish()
